@@ -29,6 +29,7 @@ import XmlDiffModel.Proofs.Counts
 import XmlDiffModel.Proofs.Counts2
 import XmlDiffModel.Proofs.AttrTotal
 import XmlDiffModel.Proofs.Changes
+import XmlDiffModel.Proofs.Once
 
 namespace XmlDiffModel
 
@@ -101,6 +102,35 @@ example :
     let L : Tree := .node 0 (e "a") [.node 1 (e "b") []]
     (applyUniq QName.plain ⟨L, 20⟩ (.updateTextIn [⟨.name "a".toList, some 1⟩, ⟨.name "b".toList, some 1⟩] none)).toOption.map
       (fun p => C17.pls p.tree) = some (C17.pls L) := by
+  decide +kernel
+
+/-- No node is renamed twice, no node's text is set twice and no node's tail is set twice: in the replay of the
+script from the left document the `renameNode` actions hit pairwise different nodes, and so do the `updateTextIn`
+and the `updateTextAfter` actions (`Once.targets sel qn p script` lists the ids of the nodes the selected actions hit).
+A visit emits at most one action of each kind, addressed to the partner of the visited right node, and different
+right nodes have different partners. -/
+theorem C17_each_node_changed_once (qn : QName) (cfg : Cfg) (L R : Tree) (M : List (Nat × Nat)) (fresh : Nat)
+    (script : List Action) (final : Tree) (hL : L.WF) (hR : R.WF)
+    (hfL : ∀ i ∈ Tree.ids L, i < fresh) (hM : Chw.GoodMatching L R M)
+    (hA : ∀ x ∈ Tree.bfs R, (keys x.payload.attrs).Nodup)
+    (h : scriptGen qn cfg L R M fresh = .ok (script, final)) :
+    (Once.targets Once.renSel qn ⟨L, fresh⟩ script).Nodup ∧
+      (Once.targets Once.textSel qn ⟨L, fresh⟩ script).Nodup ∧
+      (Once.targets Once.tailSel qn ⟨L, fresh⟩ script).Nodup :=
+  ⟨Once.scriptGen_once Once.renSel Once.goodSel_ren isRen Once.isSome_renSel Once.one_ren qn cfg L R M fresh script
+      final hL hR hfL hM hA h,
+   Once.scriptGen_once Once.textSel Once.goodSel_text isTxt Once.isSome_textSel Once.one_txt qn cfg L R M fresh script
+      final hL hR hfL hM hA h,
+   Once.scriptGen_once Once.tailSel Once.goodSel_tail isTail Once.isSome_tailSel Once.one_tail qn cfg L R M fresh script
+      final hL hR hfL hM hA h⟩
+
+/-- Non-vacuity of `Once.targets`: a script that renames one node twice is flagged. -/
+example :
+    let e (t : String) : Payload := ⟨.elem, t.toList, [], none, none⟩
+    let L : Tree := .node 0 (e "a") [.node 1 (e "b") []]
+    Once.targets Once.renSel QName.plain ⟨L, 20⟩
+      [.renameNode [⟨.name "a".toList, some 1⟩, ⟨.name "b".toList, some 1⟩] "c".toList,
+       .renameNode [⟨.name "a".toList, some 1⟩, ⟨.name "c".toList, some 1⟩] "d".toList] = [1, 1] := by
   decide +kernel
 
 /-- Per node pair, `update_node_attr` emits no insert / rename / text / tail action. -/
